@@ -116,3 +116,38 @@ package ovsdb
 //@ loop 5 invariant Pass1Done(ops)
 //@ loop 6 invariant Pass1Done(ops)
 //@ loop 7 invariant Pass1Done(ops)
+
+// ---- error.go (C12): typed error <-> wire result ---------------------------------
+
+//@ func ResultFromError
+//@ requires err != nil && ptrof(err) != nil
+//@ modifies nothing
+//@ may_panic
+//@ ensures result.Error != "" && result.Count == 0 && len(result.Rows) == 0
+//@ ensures istype(err, "*ReferentialIntegrityViolation") ==> (result.Error == "referential integrity violation" && result.Details == unbox(err, "*ReferentialIntegrityViolation").details)
+//@ ensures istype(err, "*ConstraintViolation") ==> (result.Error == "constraint violation" && result.Details == unbox(err, "*ConstraintViolation").details)
+//@ ensures istype(err, "*ResourcesExhausted") ==> (result.Error == "resources exhausted" && result.Details == unbox(err, "*ResourcesExhausted").details)
+//@ ensures istype(err, "*IOError") ==> (result.Error == "I/O error" && result.Details == unbox(err, "*IOError").details)
+//@ ensures istype(err, "*DuplicateUUIDName") ==> (result.Error == "duplicate uuid name" && result.Details == unbox(err, "*DuplicateUUIDName").details)
+//@ ensures istype(err, "*DomainError") ==> (result.Error == "domain error" && result.Details == unbox(err, "*DomainError").details)
+//@ ensures istype(err, "*RangeError") ==> (result.Error == "range error" && result.Details == unbox(err, "*RangeError").details)
+//@ ensures istype(err, "*TimedOut") ==> (result.Error == "timed out" && result.Details == unbox(err, "*TimedOut").details)
+//@ ensures istype(err, "*NotSupported") ==> (result.Error == "not supported" && result.Details == unbox(err, "*NotSupported").details)
+//@ ensures istype(err, "*Aborted") ==> (result.Error == "aborted" && result.Details == unbox(err, "*Aborted").details)
+//@ ensures istype(err, "*NotOwner") ==> (result.Error == "not owner" && result.Details == unbox(err, "*NotOwner").details)
+
+//@ func errorFromResult
+//@ modifies nothing
+//@ ensures (r.Error == "") == (result == nil)
+//@ ensures r.Error == "referential integrity violation" ==> (istype(result, "*ReferentialIntegrityViolation") && fresh(unbox(result, "*ReferentialIntegrityViolation")) && unbox(result, "*ReferentialIntegrityViolation").details == r.Details && unbox(result, "*ReferentialIntegrityViolation").operation == op)
+//@ ensures r.Error == "constraint violation" ==> (istype(result, "*ConstraintViolation") && fresh(unbox(result, "*ConstraintViolation")) && unbox(result, "*ConstraintViolation").details == r.Details && unbox(result, "*ConstraintViolation").operation == op)
+//@ ensures r.Error == "resources exhausted" ==> (istype(result, "*ResourcesExhausted") && fresh(unbox(result, "*ResourcesExhausted")) && unbox(result, "*ResourcesExhausted").details == r.Details && unbox(result, "*ResourcesExhausted").operation == op)
+//@ ensures r.Error == "I/O error" ==> (istype(result, "*IOError") && fresh(unbox(result, "*IOError")) && unbox(result, "*IOError").details == r.Details && unbox(result, "*IOError").operation == op)
+//@ ensures r.Error == "duplicate uuid name" ==> (istype(result, "*DuplicateUUIDName") && fresh(unbox(result, "*DuplicateUUIDName")) && unbox(result, "*DuplicateUUIDName").details == r.Details && unbox(result, "*DuplicateUUIDName").operation == op)
+//@ ensures r.Error == "domain error" ==> (istype(result, "*DomainError") && fresh(unbox(result, "*DomainError")) && unbox(result, "*DomainError").details == r.Details && unbox(result, "*DomainError").operation == op)
+//@ ensures r.Error == "range error" ==> (istype(result, "*RangeError") && fresh(unbox(result, "*RangeError")) && unbox(result, "*RangeError").details == r.Details && unbox(result, "*RangeError").operation == op)
+//@ ensures r.Error == "timed out" ==> (istype(result, "*TimedOut") && fresh(unbox(result, "*TimedOut")) && unbox(result, "*TimedOut").details == r.Details && unbox(result, "*TimedOut").operation == op)
+//@ ensures r.Error == "not supported" ==> (istype(result, "*NotSupported") && fresh(unbox(result, "*NotSupported")) && unbox(result, "*NotSupported").details == r.Details && unbox(result, "*NotSupported").operation == op)
+//@ ensures r.Error == "aborted" ==> (istype(result, "*Aborted") && fresh(unbox(result, "*Aborted")) && unbox(result, "*Aborted").details == r.Details && unbox(result, "*Aborted").operation == op)
+//@ ensures r.Error == "not owner" ==> (istype(result, "*NotOwner") && fresh(unbox(result, "*NotOwner")) && unbox(result, "*NotOwner").details == r.Details && unbox(result, "*NotOwner").operation == op)
+//@ ensures r.Error != "" && r.Error != "referential integrity violation" && r.Error != "constraint violation" && r.Error != "resources exhausted" && r.Error != "I/O error" && r.Error != "duplicate uuid name" && r.Error != "domain error" && r.Error != "range error" && r.Error != "timed out" && r.Error != "not supported" && r.Error != "aborted" && r.Error != "not owner" ==> (istype(result, "*Error") && unbox(result, "*Error").name == r.Error && unbox(result, "*Error").details == r.Details)
